@@ -6,6 +6,7 @@
 import EinoV.Model.C16Slices
 import EinoV.Proofs.C16
 import EinoV.Proofs.C16Keys
+import EinoV.Proofs.C16Resume
 
 namespace EinoV.C16
 
@@ -715,21 +716,28 @@ theorem map_abs_frame {h h' : VHeap} (hf : Frame h h') {opts : List SOpt}
   List.map_congr_left (fun o ho => abs_frame hf (hb o ho))
 
 mutual
-theorem runNodeSW_refines {F : Facts} {K : KeyFacts} {V : SliceFacts} (hV : V.valsGrowFromMapSlot = true)
-    (grow : Nat → Nat → Nat) (par : Paradigm) :
-    ∀ (n : WNode) (pre : Path) (gH : List Nat) (opts : List SOpt) (lv : LevelS) (h : VHeap) (log : Log),
+theorem runNodeSW_refines {F : Facts} {K : KeyFacts} {R : ResumeFacts} {V : SliceFacts}
+    (hV : V.valsGrowFromMapSlot = true) (grow : Nat → Nat → Nat) (par : Paradigm) :
+    ∀ (n : WNode) (part : Part) (pre : Path) (gH : List Nat) (opts : List SOpt) (lv : LevelS) (h : VHeap)
+      (log : Log),
       (∀ o ∈ opts, o.vh.arr < h.next) → Rel h lv log → Bounded h lv →
-      Frame h (runNodeSW F K V grow par pre gH opts lv h n).1 ∧
-      (runNodeSW F K V grow par pre gH opts lv h n).2
-        = runNodeW F K par pre gH (opts.map (SOpt.abs h)) log n
-  | .comp k ty w, pre, gH, opts, lv, h, log, _, hr, _ => by
-    refine ⟨Frame.refl _, ?_⟩
-    simp only [runNodeSW, runNodeW, deliver, nodeHandlers_shell h]
-    by_cases hf : w.forwards K par = true
-    · simp only [hf, if_true, (hr k).1]
-    · simp only [hf]; rfl
-  | .pass k w, pre, gH, opts, lv, h, log, _, _, _ => ⟨Frame.refl _, rfl⟩
-  | .graph k ch w, pre, gH, opts, lv, h, log, hob, hr, hb => by
+      Frame h (runNodeSW F K R V grow par pre gH opts lv part h n).1 ∧
+      (runNodeSW F K R V grow par pre gH opts lv part h n).2
+        = runNodeWP F K R par pre gH (opts.map (SOpt.abs h)) log part n
+  | .comp k ty w, part, pre, gH, opts, lv, h, log, _, hr, _ => by
+    simp only [runNodeSW, runNodeWP]
+    by_cases hs : part.skips = true
+    · simp only [hs, if_true]; exact ⟨Frame.refl _, trivial⟩
+    · simp only [hs]
+      refine ⟨Frame.refl _, ?_⟩
+      simp only [deliver, nodeHandlers_shell h]
+      by_cases hf : w.forwards K par = true
+      · simp only [hf, if_true, (hr k).1]; rfl
+      · simp only [hf]; rfl
+  | .pass k w, part, pre, gH, opts, lv, h, log, _, _, _ => ⟨Frame.refl _, rfl⟩
+  | .graph k ch w, part, pre, gH, opts, lv, h, log, hob, hr, hb => by
+    by_cases hs : part.skips = true
+    · simp only [runNodeSW, runNodeWP, hs, if_true]; exact ⟨Frame.refl _, trivial⟩
     -- the Options the nested graph is called with
     have hsub : (if w.forwards K par = true then glFor lv.gl k else []).map (SOpt.abs h)
         = optsOf (deliver K par w (itemsFor log k)) := by
@@ -744,7 +752,7 @@ theorem runNodeSW_refines {F : Facts} {K : KeyFacts} {V : SliceFacts} (hV : V.va
       · simp only [hf] at ho; cases ho
     generalize hsubdef : (if w.forwards K par = true then glFor lv.gl k else []) = sub at hsub hsb
     have hlevel := extractS_refines (F := F) hV grow ch.erase sub h hsb
-    simp only [runNodeSW, runNodeW, hsubdef]
+    simp only [runNodeSW, runNodeWP, hsubdef, hs]
     rw [← hsub, nodeHandlers_shell h, graphHandlers_shell h]
     rcases hex : extractS F V grow ch.erase sub h with ⟨h1, res⟩
     rw [hex] at hlevel
@@ -758,31 +766,34 @@ theorem runNodeSW_refines {F : Facts} {K : KeyFacts} {V : SliceFacts} (hV : V.va
       simp only [] at hf1 hrel' hbd' ⊢
       rw [hlog']
       have hsb1 : ∀ o ∈ sub, o.vh.arr < h1.next := fun o ho => Nat.lt_of_lt_of_le (hsb o ho) hf1.1
-      have ih := runNodesSW_refines (F := F) (K := K) hV grow par ch (pre ++ [k])
-        ((gH ++ nodeHandlers (opts.map (SOpt.abs h)) k) ++ graphHandlers (sub.map (SOpt.abs h)))
+      generalize hnH : (if (part.restored && !R.restoredTaskGetsNodeCallbacks) = true then []
+        else nodeHandlers (opts.map (SOpt.abs h)) k) = nH
+      have ih := runNodesSW_refines (F := F) (K := K) (R := R) hV grow par ch part (pre ++ [k])
+        ((gH ++ nH) ++ graphHandlers (sub.map (SOpt.abs h)))
         sub lv' h1 log' hsb1 hrel' hbd'
       rw [map_abs_frame hf1 hsb] at ih
-      rcases hrn : runNodesSW F K V grow par (pre ++ [k])
-        ((gH ++ nodeHandlers (opts.map (SOpt.abs h)) k) ++ graphHandlers (sub.map (SOpt.abs h)))
-        sub lv' h1 ch with ⟨h2, res2⟩
+      rcases hrn : runNodesSW F K R V grow par (pre ++ [k])
+        ((gH ++ nH) ++ graphHandlers (sub.map (SOpt.abs h)))
+        sub lv' part h1 ch with ⟨h2, res2⟩
       rw [hrn] at ih
       simp only [] at ih ⊢
       rw [← ih.2]
       cases res2 with
       | error e => exact ⟨hf1.trans ih.1, rfl⟩
       | ok es => exact ⟨hf1.trans ih.1, rfl⟩
-theorem runNodesSW_refines {F : Facts} {K : KeyFacts} {V : SliceFacts} (hV : V.valsGrowFromMapSlot = true)
-    (grow : Nat → Nat → Nat) (par : Paradigm) :
-    ∀ (ns : WNodes) (pre : Path) (gH : List Nat) (opts : List SOpt) (lv : LevelS) (h : VHeap) (log : Log),
+theorem runNodesSW_refines {F : Facts} {K : KeyFacts} {R : ResumeFacts} {V : SliceFacts}
+    (hV : V.valsGrowFromMapSlot = true) (grow : Nat → Nat → Nat) (par : Paradigm) :
+    ∀ (ns : WNodes) (part : Part) (pre : Path) (gH : List Nat) (opts : List SOpt) (lv : LevelS) (h : VHeap)
+      (log : Log),
       (∀ o ∈ opts, o.vh.arr < h.next) → Rel h lv log → Bounded h lv →
-      Frame h (runNodesSW F K V grow par pre gH opts lv h ns).1 ∧
-      (runNodesSW F K V grow par pre gH opts lv h ns).2
-        = runNodesW F K par pre gH (opts.map (SOpt.abs h)) log ns
-  | .nil, pre, gH, opts, lv, h, log, _, _, _ => ⟨Frame.refl _, rfl⟩
-  | .cons n ns, pre, gH, opts, lv, h, log, hob, hr, hb => by
-    have ih1 := runNodeSW_refines (F := F) (K := K) hV grow par n pre gH opts lv h log hob hr hb
-    simp only [runNodesSW, runNodesW]
-    rcases hn : runNodeSW F K V grow par pre gH opts lv h n with ⟨h1, res1⟩
+      Frame h (runNodesSW F K R V grow par pre gH opts lv part h ns).1 ∧
+      (runNodesSW F K R V grow par pre gH opts lv part h ns).2
+        = runNodesWP F K R par pre gH (opts.map (SOpt.abs h)) log part ns
+  | .nil, part, pre, gH, opts, lv, h, log, _, _, _ => ⟨Frame.refl _, rfl⟩
+  | .cons n ns, part, pre, gH, opts, lv, h, log, hob, hr, hb => by
+    have ih1 := runNodeSW_refines (F := F) (K := K) (R := R) hV grow par n (part.node n.key) pre gH opts lv h log hob hr hb
+    simp only [runNodesSW, runNodesWP]
+    rcases hn : runNodeSW F K R V grow par pre gH opts lv (part.node n.key) h n with ⟨h1, res1⟩
     rw [hn] at ih1
     simp only [] at ih1 ⊢
     rw [← ih1.2]
@@ -791,10 +802,10 @@ theorem runNodesSW_refines {F : Facts} {K : KeyFacts} {V : SliceFacts} (hV : V.v
     | ok a =>
       simp only []
       have hob1 : ∀ o ∈ opts, o.vh.arr < h1.next := fun o ho => Nat.lt_of_lt_of_le (hob o ho) ih1.1.1
-      have ih2 := runNodesSW_refines (F := F) (K := K) hV grow par ns pre gH opts lv h1 log hob1
+      have ih2 := runNodesSW_refines (F := F) (K := K) (R := R) hV grow par ns (part.rest n.key) pre gH opts lv h1 log hob1
         (Rel_frame ih1.1 hb hr) (Bounded_frame ih1.1 hb)
       rw [map_abs_frame ih1.1 hob] at ih2
-      rcases hns : runNodesSW F K V grow par pre gH opts lv h1 ns with ⟨h2, res2⟩
+      rcases hns : runNodesSW F K R V grow par pre gH opts lv (part.rest n.key) h1 ns with ⟨h2, res2⟩
       rw [hns] at ih2
       simp only [] at ih2 ⊢
       rw [← ih2.2]
@@ -803,16 +814,17 @@ theorem runNodesSW_refines {F : Facts} {K : KeyFacts} {V : SliceFacts} (hV : V.v
       | ok b => exact ⟨ih1.1.trans ih2.1, rfl⟩
 end
 
-/-- **one call.**  On any heap on which the caller's Options exist, the call on the heap is the
-    pure `runW` of the Options as they read at the time of the call, and it leaves every
-    existing array as it was (all cells, also those beyond a slice's length). -/
-theorem runSW_refines {F : Facts} {K : KeyFacts} {V : SliceFacts} (hV : V.valsGrowFromMapSlot = true)
-    (grow : Nat → Nat → Nat) (par : Paradigm) (g : WNodes) (opts : List SOpt) (h : VHeap)
+/-- **one call.**  On any heap on which the caller's Options exist, the call on the heap – fresh,
+    interrupted or resuming – is the pure `runWP` of the Options as they read at the time of the
+    call, and it leaves every existing array as it was (all cells, also those beyond a slice's length). -/
+theorem runSW_refines {F : Facts} {K : KeyFacts} {R : ResumeFacts} {V : SliceFacts}
+    (hV : V.valsGrowFromMapSlot = true)
+    (grow : Nat → Nat → Nat) (par : Paradigm) (part : Part) (g : WNodes) (opts : List SOpt) (h : VHeap)
     (hb : ∀ o ∈ opts, o.vh.arr < h.next) :
-    Frame h (runSW F K V grow par g opts h).1 ∧
-    (runSW F K V grow par g opts h).2 = runW F K par g (opts.map (SOpt.abs h)) := by
+    Frame h (runSW F K R V grow par part g opts h).1 ∧
+    (runSW F K R V grow par part g opts h).2 = runWP F K R par part g (opts.map (SOpt.abs h)) := by
   have hlevel := extractS_refines (F := F) hV grow g.erase opts h hb
-  unfold runSW runW
+  unfold runSW runWP
   rw [graphHandlers_shell h]
   rcases hex : extractS F V grow g.erase opts h with ⟨h1, res⟩
   rw [hex] at hlevel
@@ -826,10 +838,10 @@ theorem runSW_refines {F : Facts} {K : KeyFacts} {V : SliceFacts} (hV : V.valsGr
     simp only [] at hf1 hrel hbd ⊢
     rw [hlog]
     have hb1 : ∀ o ∈ opts, o.vh.arr < h1.next := fun o ho => Nat.lt_of_lt_of_le (hb o ho) hf1.1
-    have ih := runNodesSW_refines (F := F) (K := K) hV grow par g []
+    have ih := runNodesSW_refines (F := F) (K := K) (R := R) hV grow par g part []
       (graphHandlers (opts.map (SOpt.abs h))) opts lv h1 log hb1 hrel hbd
     rw [map_abs_frame hf1 hb] at ih
-    rcases hrn : runNodesSW F K V grow par [] (graphHandlers (opts.map (SOpt.abs h))) opts lv h1 g
+    rcases hrn : runNodesSW F K R V grow par [] (graphHandlers (opts.map (SOpt.abs h))) opts lv part h1 g
       with ⟨h2, res2⟩
     rw [hrn] at ih
     simp only [] at ih ⊢
@@ -861,24 +873,28 @@ theorem storeAfterS_copies {F : Facts} (hC : F.nestedCopies = true) (h : VHeap) 
   | nil => rfl
   | cons o os ih => simp only [List.map_cons, List.zip_cons_cons, ih]; rfl
 
-/-- **sequences of calls** sharing Option values and the heap: every call is the pure `runW` of
-    the Options as the caller built them, the caller's Option values are unchanged, and no cell of
-    an array that existed before the calls has changed. -/
-theorem runCallsSW_refines {F : Facts} {K : KeyFacts} {V : SliceFacts} (hC : F.nestedCopies = true)
+/-- **sequences of calls** – plain, interrupted, resuming – sharing Option values, the heap and
+    the checkpoint store: every call is the pure `runWP` (of the part the sequence determines) of
+    the Options as the caller built them, the caller's Option values are unchanged, and no cell
+    of an array that existed before the calls has changed. -/
+theorem runCallsSW_refines {F : Facts} {K : KeyFacts} {R : ResumeFacts} {V : SliceFacts}
+    (hC : F.nestedCopies = true)
     (hV : V.valsGrowFromMapSlot = true) (grow : Nat → Nat → Nat) :
-    ∀ (cs : List CallW) (h : VHeap) (store : List SOpt), (∀ o ∈ store, o.vh.arr < h.next) →
-      (runCallsSW F K V grow h store cs).1
-          = cs.map (fun c => runW F K c.par c.g (pick (store.map (SOpt.abs h)) c.ixs)) ∧
-      (runCallsSW F K V grow h store cs).2.1 = store ∧
-      Frame h (runCallsSW F K V grow h store cs).2.2
-  | [], h, store, _ => ⟨rfl, rfl, Frame.refl _⟩
-  | c :: cs, h, store, hb => by
+    ∀ (cs : List CallP) (saved : Option Path) (h : VHeap) (store : List SOpt),
+      (∀ o ∈ store, o.vh.arr < h.next) →
+      (runCallsSW F K R V grow saved h store cs).1
+          = callsSpec F K R (store.map (SOpt.abs h)) saved cs ∧
+      (runCallsSW F K R V grow saved h store cs).2.1 = store ∧
+      Frame h (runCallsSW F K R V grow saved h store cs).2.2
+  | [], saved, h, store, _ => ⟨rfl, rfl, Frame.refl _⟩
+  | c :: cs, saved, h, store, hb => by
     have hp : ∀ o ∈ pickS store c.ixs, o.vh.arr < h.next := fun o ho => hb o (mem_pickS ho)
-    have h1 := runSW_refines (F := F) (K := K) hV grow c.par c.g (pickS store c.ixs) h hp
-    have hb1 : ∀ o ∈ store, o.vh.arr < (runSW F K V grow c.par c.g (pickS store c.ixs) h).1.next :=
+    have h1 := runSW_refines (F := F) (K := K) (R := R) hV grow c.par (c.ask.part saved) c.g (pickS store c.ixs) h hp
+    have hb1 : ∀ o ∈ store, o.vh.arr < (runSW F K R V grow c.par (c.ask.part saved) c.g (pickS store c.ixs) h).1.next :=
       fun o ho => Nat.lt_of_lt_of_le (hb o ho) h1.1.1
-    have ih := runCallsSW_refines (K := K) hC hV grow cs _ store hb1
-    simp only [runCallsSW, storeAfterS_copies hC, List.map_cons]
+    have ih := runCallsSW_refines (K := K) (R := R) hC hV grow cs
+      (c.ask.savedAfter saved (runSW F K R V grow c.par (c.ask.part saved) c.g (pickS store c.ixs) h).2) _ store hb1
+    simp only [runCallsSW, storeAfterS_copies hC, callsSpec]
     refine ⟨?_, ih.2.1, h1.1.trans ih.2.2⟩
     rw [ih.1, h1.2, pickS_abs, map_abs_frame h1.1 hb]
 
